@@ -131,7 +131,7 @@ def program(cfg, r):
             for vs in range(1 << n):
                 for fa in (0, 1):
                     out.append(dict(op='quant', how=r.choice(['quantify', 'named', 'fmeth']), a=-1, b=-1,
-                                    vars=vs, forall=fa, cont=r.randrange(5), alias=0, kwarg=r.randrange(2), keep=False))
+                                    vars=vs, forall=fa, cont=r.randrange(7), alias=0, kwarg=r.randrange(2), keep=False))
             out.append(dict(op='drop', a=-1, mode='now'))
     elif kind == 'C04':
         for it in items:
